@@ -23,6 +23,21 @@ class ExecTimeout(Exception):
     pass
 
 
+def crash_violation(prop, where, hist, ex):
+    """an exception escaping an oracle: if it was raised inside the library (innermost frame under the
+    import root) it is an observation — the property's queries must not raise — otherwise it is a
+    harness error and is re-raised (exit 2)"""
+    import traceback
+    tb = traceback.extract_tb(ex.__traceback__)
+    inner = tb[-1].filename if tb else ''
+    if not inner.startswith(common.REPO.rstrip('/') + '/'):
+        raise ex
+    return {'property': prop, 'sub': 'observation', 'sig': {'kind': 'library-raised-during-observation', 'exc': type(ex).__name__,
+                                                            'where': '%s:%s' % (tb[-1].filename.split('/')[-1], tb[-1].name)},
+            'case': {'history': repr(hist)}, 'detail': {'exception': repr(ex)[:300], 'phase': where,
+                                                        'trace': [('%s:%d %s' % (f.filename.split('/')[-1], f.lineno, f.name)) for f in tb[-4:]]}}
+
+
 def _alarm(signum, frame):
     raise ExecTimeout()
 
@@ -80,10 +95,16 @@ def _phase_a(chunk):
                 G, M, outs = execute(conf, h2)
                 out, exp, _ = outs[-1]
                 dead = out not in LEGIT
-                viols, cnt = spec.on_transition(conf, hist, op, G, M, out, exp)
+                try:
+                    viols, cnt = spec.on_transition(conf, hist, op, G, M, out, exp)
+                    vj = [v.to_json() for v in viols]
+                except ExecTimeout:
+                    raise
+                except Exception as ex:
+                    vj, cnt = [crash_violation(spec.prop, 'transition', h2, ex)], {}
                 key = None if dead else state_key(conf, G, M)
                 cls = M.classes[-1] if (M.classes and out == 'ok' and op[0] in ('add',)) else None
-                res.append((key, h2, out, exp, dead, [v.to_json() for v in viols], cnt, cls,
+                res.append((key, h2, out, exp, dead, vj, cnt, cls,
                             bool(spec.expand(conf, h2, G, M, outs)) and not dead))
             except ExecTimeout:
                 res.append((None, h2, 'TIMEOUT', None, True, [{'property': spec.prop, 'sub': 'timeout',
@@ -101,8 +122,14 @@ def _phase_b(chunk):
         signal.setitimer(signal.ITIMER_REAL, EXEC_TIMEOUT_S * 4)
         try:
             G, M, outs = execute(conf, hist)
-            viols, cnt, sets = spec.on_state(conf, hist, G, M)
-            res.append((hist, [v.to_json() for v in viols], cnt, sets))
+            try:
+                viols, cnt, sets = spec.on_state(conf, hist, G, M)
+                vj = [v.to_json() for v in viols]
+            except ExecTimeout:
+                raise
+            except Exception as ex:
+                vj, cnt, sets = [crash_violation(spec.prop, 'state', hist, ex)], {}, {}
+            res.append((hist, vj, cnt, sets))
         except ExecTimeout:
             res.append((hist, [{'property': spec.prop, 'sub': 'timeout', 'sig': {'kind': 'timeout'}, 'case': {},
                                 'detail': {'history': repr(hist)}}], {}, {}))
